@@ -10,7 +10,13 @@
 (* obtains WriterSem!Denote(program) - the meaning of the program defined  *)
 (* independently of the last_end mechanism - with MORE on every terminator *)
 (* but the last; a call that contradicts the declared row shape is refused *)
-(* and no malformed row packet is emitted.                                 *)
+(* and no malformed row packet is emitted.  With Recover = TRUE a shim may  *)
+(* HANDLE a refused write_col (log it, substitute a value, report an error *)
+(* to the client, finish the resultset) instead of propagating it with `?`:*)
+(* a refused call must then have left nothing behind - the program means   *)
+(* what it means without the refused call.  Deviation LeakHeader: the      *)
+(* binary row header byte is put into the open packet by the refused call  *)
+(* at column 0 (the behaviour of the pinned tree before its repair).       *)
 (* Every complete program is also printed (REPLAY) and executed on the     *)
 (* real server; the trace monitor compares.                                *)
 (***************************************************************************)
@@ -18,10 +24,12 @@ EXTENDS Encoders
 
 CONSTANTS MaxOps,            \* bound on the number of API calls
           MoreOnLast,        \* deviation: finalize(true) in no_more_results (must violate C03)
-          EofForZeroCols     \* deviation: zero-column resultset terminated by EOF instead of OK
+          EofForZeroCols,    \* deviation: zero-column resultset terminated by EOF instead of OK
+          Recover,           \* programs may continue after a refused write_col
+          LeakHeader         \* deviation: a refused binary write_col at column 0 leaves the row header byte in the open packet
 
-VARIABLES ws, isBin, lastEnd, cols, col, out, prog, outcome, started, pendingCell
-vars == <<ws, isBin, lastEnd, cols, col, out, prog, outcome, started, pendingCell>>
+VARIABLES ws, isBin, lastEnd, cols, col, out, prog, outcome, started, pendingCell, stray
+vars == <<ws, isBin, lastEnd, cols, col, out, prog, outcome, started, pendingCell, stray>>
 
 MOREFLAG == 8
 NoneE == [k |-> "none"]
@@ -38,10 +46,15 @@ R7 == IntU64(7)
 I9 == IntU64(9)
 
 Init == /\ ws = "Q" /\ isBin \in BOOLEAN /\ lastEnd = NoneE /\ cols = << >> /\ col = 0 /\ out = << >> /\ prog = << >>
-        /\ outcome = "running" /\ started = FALSE /\ pendingCell = << >>
+        /\ outcome = "running" /\ started = FALSE /\ pendingCell = << >> /\ stray = << >>
 
 CanStep == outcome = "running" /\ Len(prog) < MaxOps
 Log(o, res) == prog' = Append(prog, [op |-> o, res |-> res, st |-> IF ws = "Q" THEN "q" ELSE "r"])
+
+\* packets handed to the connection: whatever a refused call left in the open packet buffer is glued
+\* in front of the next packet (only the LeakHeader deviation ever leaves anything)
+Put(pkts) == /\ out' = out \o (IF stray # << >> /\ pkts # << >> THEN <<stray \o pkts[1]>> \o Tail(pkts) ELSE pkts)
+             /\ stray' = IF pkts # << >> THEN << >> ELSE stray
 
 \* finalize(more): the deferred terminator of the previous resultset
 Fin(l, more) == IF l.k = "none" THEN << >>
@@ -56,24 +69,24 @@ Header(cs) == IF Len(cs) = 0 THEN << >> ELSE <<ColCountPkt(Len(cs))>> \o DefPkts
 Start(n) ==
   /\ CanStep /\ ws = "Q"
   /\ Log([op |-> "start", cols |-> ColSets[n + 1]], "ok")
-  /\ out' = out \o Fin(lastEnd, TRUE) \o Header(ColSets[n + 1])
+  /\ Put(Fin(lastEnd, TRUE) \o Header(ColSets[n + 1]))
   /\ ws' = "R" /\ lastEnd' = NoneE /\ cols' = ColSets[n + 1] /\ col' = 0 /\ started' = TRUE /\ pendingCell' = << >>
   /\ UNCHANGED <<isBin, outcome>>
 CompleteOne ==
   /\ CanStep /\ ws = "Q"
   /\ Log([op |-> "complete_one", rows |-> R7, id |-> I9], "ok")
-  /\ out' = out \o Fin(lastEnd, TRUE) /\ lastEnd' = [k |-> "ok", rows |-> R7, id |-> I9] /\ started' = TRUE
+  /\ Put(Fin(lastEnd, TRUE)) /\ lastEnd' = [k |-> "ok", rows |-> R7, id |-> I9] /\ started' = TRUE
   /\ UNCHANGED <<ws, isBin, cols, col, outcome, pendingCell>>
 Completed ==
   /\ CanStep /\ ws = "Q"
   /\ Log([op |-> "completed", rows |-> R7, id |-> I9], "ok")
-  /\ out' = out \o Fin(lastEnd, TRUE) \o Fin([k |-> "ok", rows |-> R7, id |-> I9], MoreOnLast)
+  /\ Put(Fin(lastEnd, TRUE) \o Fin([k |-> "ok", rows |-> R7, id |-> I9], MoreOnLast))
   /\ lastEnd' = NoneE /\ ws' = "Done" /\ outcome' = "ok" /\ started' = TRUE
   /\ UNCHANGED <<isBin, cols, col, pendingCell>>
 QError ==
   /\ CanStep /\ ws = "Q"
   /\ Log([op |-> "error", kind |-> "ER_NO", msg |-> <<120>>], "ok")
-  /\ out' = out \o Fin(lastEnd, TRUE) \o <<ErrPkt("ER_NO", <<120>>)>>
+  /\ Put(Fin(lastEnd, TRUE) \o <<ErrPkt("ER_NO", <<120>>)>>)
   /\ lastEnd' = NoneE /\ ws' = "Done" /\ outcome' = "ok" /\ started' = TRUE
   /\ UNCHANGED <<isBin, cols, col, pendingCell>>
 \* no_more_results and Drop both run finalize(false); dropping before anything was started is
@@ -81,7 +94,7 @@ QError ==
 NoMore(name) ==
   /\ CanStep /\ ws = "Q" /\ started
   /\ Log([op |-> name], "ok")
-  /\ out' = out \o Fin(lastEnd, MoreOnLast) /\ lastEnd' = NoneE /\ ws' = "Done" /\ outcome' = "ok"
+  /\ Put(Fin(lastEnd, MoreOnLast)) /\ lastEnd' = NoneE /\ ws' = "Done" /\ outcome' = "ok"
   /\ UNCHANGED <<isBin, cols, col, started, pendingCell>>
 
 \* ---------------- RowWriter ----------------
@@ -98,10 +111,14 @@ WriteColRes(v, k) ==
 WriteCol(v) ==
   /\ CanStep /\ ws = "R"
   /\ LET r == WriteColRes(v, col) IN
-     /\ Log([op |-> "write_col", v |-> v], IF r.ok THEN "ok" ELSE "err")
+     /\ IF r.ok THEN Log([op |-> "write_col", v |-> v], "ok")
+        ELSE Log([op |-> "write_col", v |-> v, cont |-> Recover], "err")
      /\ col' = IF r.take THEN col + 1 ELSE col
      /\ pendingCell' = IF r.take THEN Append(pendingCell, v.c) ELSE pendingCell
-     /\ outcome' = IF r.ok THEN outcome ELSE "err"
+     \* a handled refusal: the shim carries on with the same row writer
+     /\ outcome' = IF r.ok \/ Recover THEN outcome ELSE "err"
+     \* write_col puts the row header into the open packet when col = 0, before it looks at the value
+     /\ stray' = IF LeakHeader /\ ~r.ok /\ isBin /\ nc # 0 /\ col = 0 /\ col + 1 <= nc THEN stray \o <<0>> ELSE stray
   /\ UNCHANGED <<ws, isBin, lastEnd, cols, out, started>>
 RowPkt(cells) == IF isBin THEN BinRowPkt(cells, cols) ELSE TextRowPkt(cells, 1)
 \* end_row as a function of the current row: [ok, pkts, col]
@@ -113,7 +130,7 @@ EndRow ==
   /\ CanStep /\ ws = "R"
   /\ LET r == EndRowRes(pendingCell, col) IN
      /\ Log([op |-> "end_row"], IF r.ok THEN "ok" ELSE "err")
-     /\ out' = out \o r.p /\ col' = r.c /\ outcome' = IF r.ok THEN outcome ELSE "err"
+     /\ Put(r.p) /\ col' = r.c /\ outcome' = IF r.ok THEN outcome ELSE "err"
      /\ pendingCell' = IF r.ok THEN << >> ELSE pendingCell
   /\ UNCHANGED <<ws, isBin, lastEnd, cols, started>>
 \* write_row(vs): write_col for each value (stopping at the first refusal), then end_row
@@ -128,7 +145,7 @@ WriteRow(vs) ==
   /\ LET w == IF nc = 0 THEN [ok |-> TRUE, cells |-> pendingCell, k |-> col] ELSE WriteAll(vs, 1, pendingCell, col)
          r == IF w.ok THEN EndRowRes(w.cells, w.k) ELSE [ok |-> FALSE, p |-> << >>, c |-> w.k]
      IN /\ Log([op |-> "write_row", vs |-> vs], IF r.ok THEN "ok" ELSE "err")
-        /\ out' = out \o r.p /\ col' = r.c /\ outcome' = IF r.ok THEN outcome ELSE "err"
+        /\ Put(r.p) /\ col' = r.c /\ outcome' = IF r.ok THEN outcome ELSE "err"
         /\ pendingCell' = IF r.ok THEN << >> ELSE w.cells
   /\ UNCHANGED <<ws, isBin, lastEnd, cols, started>>
 \* finish_inner(complete): auto end of the last row; choice OK-vs-EOF for zero-column sets
@@ -142,8 +159,8 @@ FinishOne ==
   /\ CanStep /\ ws = "R"
   /\ LET f == FinishInner(TRUE) IN
      /\ Log([op |-> "finish_one"], IF f.ok THEN "ok" ELSE "err")
-     /\ IF f.ok THEN out' = out \o f.p /\ lastEnd' = f.le /\ ws' = "Q" /\ col' = 0 /\ pendingCell' = << >> /\ UNCHANGED outcome
-        ELSE outcome' = "err" /\ UNCHANGED <<out, lastEnd, ws, col, pendingCell>>
+     /\ IF f.ok THEN Put(f.p) /\ lastEnd' = f.le /\ ws' = "Q" /\ col' = 0 /\ pendingCell' = << >> /\ UNCHANGED outcome
+        ELSE outcome' = "err" /\ UNCHANGED <<out, lastEnd, ws, col, pendingCell, stray>>
   /\ UNCHANGED <<isBin, cols, started>>
 \* finish = finish_one + no_more_results;  drop = finish_inner(true) + drop of the result writer
 FinishLike(name) ==
@@ -152,15 +169,15 @@ FinishLike(name) ==
      \* Drop cannot return the error of a partial, contradicting last row: it is swallowed and the
      \* resultset is left unterminated ("misuse": outside the property, never judged)
      /\ Log([op |-> name], IF f.ok \/ name = "drop" THEN "ok" ELSE "err")
-     /\ IF f.ok THEN out' = out \o f.p \o Fin(f.le, MoreOnLast) /\ lastEnd' = NoneE /\ ws' = "Done" /\ outcome' = "ok" /\ col' = 0 /\ pendingCell' = << >>
-        ELSE outcome' = (IF name = "drop" THEN "misuse" ELSE "err") /\ UNCHANGED <<out, lastEnd, ws, col, pendingCell>>
+     /\ IF f.ok THEN Put(f.p \o Fin(f.le, MoreOnLast)) /\ lastEnd' = NoneE /\ ws' = "Done" /\ outcome' = "ok" /\ col' = 0 /\ pendingCell' = << >>
+        ELSE outcome' = (IF name = "drop" THEN "misuse" ELSE "err") /\ UNCHANGED <<out, lastEnd, ws, col, pendingCell, stray>>
   /\ UNCHANGED <<isBin, cols, started>>
 FinishError ==
   /\ CanStep /\ ws = "R"
   /\ LET f == FinishInner(FALSE) IN
      /\ Log([op |-> "finish_error", kind |-> "ER_NO", msg |-> <<120>>], IF f.ok THEN "ok" ELSE "err")
-     /\ IF f.ok THEN out' = out \o f.p \o <<ErrPkt("ER_NO", <<120>>)>> /\ lastEnd' = NoneE /\ ws' = "Done" /\ outcome' = "ok" /\ col' = 0 /\ pendingCell' = << >>
-        ELSE outcome' = "err" /\ UNCHANGED <<out, lastEnd, ws, col, pendingCell>>
+     /\ IF f.ok THEN Put(f.p \o <<ErrPkt("ER_NO", <<120>>)>>) /\ lastEnd' = NoneE /\ ws' = "Done" /\ outcome' = "ok" /\ col' = 0 /\ pendingCell' = << >>
+        ELSE outcome' = "err" /\ UNCHANGED <<out, lastEnd, ws, col, pendingCell, stray>>
   /\ UNCHANGED <<isBin, cols, started>>
 
 Next == \/ \E n \in 0..2 : Start(n)
